@@ -2,16 +2,18 @@
 C03 driver: model side of the chunking correspondence.
 case: {"body": hex, "filters": [..], "headers": [[n,v]..], "scheds": [[cuts]..]}
 out:  {"m": {"one": hex of run [b], "sch": ["=" | hex of run (split b cuts) ..]}, "tags": [..]}
-For every uncompressed chain the hypotheses of Rio.C03.chain_chunk_invariant_partial (`safeGB` on the schedule and on the
-single chunk, no failing call) are evaluated on every schedule: tags "sem-safe" / "sem-unsafe" (coverage of the
-theorem), and a schedule that is safe but differs from the single-chunk run would contradict the theorem — reported as
-a driver error, never silently.
+Since fe7eac6 `Rio.C03.chunk_invariant_final` (Props/C03tok.lean) says: uncompressed chain, valid UTF-8 body, valid UTF-8
+values ⇒ every schedule gives the single-chunk output.  The driver evaluates these hypotheses (tag "theorem-applies");
+a schedule of such a case whose MODEL output differs from the single-chunk model output would contradict the theorem and
+is reported as a driver error, never silently.
 -/
 import Drivers.Common
 import RioModel.Model.FilterJson
-import RioModel.Proofs.FilterPipe
-import RioModel.Props.C03tok
 open Lean Rio.Filter
+
+def filterValueOf : BodyFilter → Bytes
+  | .html _ _ _ v => v
+  | .text _ v => v
 
 def handle (j : Json) : Except String Json := do
   let body ← J.unhex (← J.str? j "body")
@@ -25,28 +27,18 @@ def handle (j : Json) : Except String Json := do
   let outs := scheds.map fun cuts => run (splitAt body cuts)
   let sch := outs.map fun out => if out == one then toJson "=" else toJson (J.hex out)
   let mut tags : Array Json := #[]
-  -- the hypotheses of Rio.C03.chain_chunk_invariant_partial, evaluated on the tokenizer model
-  let plain := chain.items.all fun st => st.kind == "html" || st.kind == "text"
-  if plain && !chain.items.isEmpty && body.length > 16384 then tags := tags.push (toJson "sem-skipped-large-body")
-  if plain && !chain.items.isEmpty && body.length ≤ 16384 then
-    let safe1 := safeGB htmlTokenize evalStandIn noCodec chain.items [body] none
-    let ok1 := (runG htmlTokenize evalStandIn noCodec chain.items [body] none).isSome
-    let flags := scheds.map fun cuts =>
-      let cs := splitAt body cuts
-      safe1 && ok1 && safeGB htmlTokenize evalStandIn noCodec chain.items cs none &&
-        (runG htmlTokenize evalStandIn noCodec chain.items cs none).isSome
-    -- the syntactic hypothesis of Rio.C03.chain_chunk_invariant_syntactic (W5's synSafeEnd at every cut)
-    let syn1 := Rio.C03.synSafeGB evalStandIn noCodec chain.items [body] none
-    let synFlags := scheds.map fun cuts => syn1 && Rio.C03.synSafeGB evalStandIn noCodec chain.items (splitAt body cuts) none
-    if synFlags.any id then tags := tags.push (toJson "syn-safe")
-    if synFlags.any (!·) then tags := tags.push (toJson "syn-unsafe")
-    for (fs, f) in synFlags.zip flags do
-      if fs && ok1 && !f then tags := tags.push (toJson "syn-safe-but-a-call-fails")
-    if flags.any id then tags := tags.push (toJson "sem-safe")
-    if flags.any (!·) then tags := tags.push (toJson "sem-unsafe")
-    if chain.items.length > 1 && flags.any id then tags := tags.push (toJson "sem-safe-multistage")
-    for (f, out) in flags.zip outs do
-      if f && out != one then throw "a schedule satisfying SafeG differs from the single-chunk run (contradicts chain_chunk_invariant_partial)"
+  -- the hypotheses of Rio.C03.chunk_invariant_final
+  let noEnc := (headerValue J.lower Rio.Consts.filterHeaderContentEncoding hs).isNone
+  let validBody := utf8Scan body == .ok
+  let validValues := fs.all fun f => utf8Scan (filterValueOf f) == .ok
+  if noEnc && validBody && validValues then
+    tags := tags.push (toJson "theorem-applies")
+    if chain.items.any fun st => st.kind == "html" then tags := tags.push (toJson "theorem-applies-html")
+    if chain.items.length > 1 then tags := tags.push (toJson "theorem-applies-multistage")
+    if outs.any (· != one) then
+      throw "valid body, valid values, uncompressed chain, but a schedule differs from the single-chunk run in the MODEL (contradicts Rio.C03.chunk_invariant_final)"
+  else
+    tags := tags.push (toJson "theorem-does-not-apply")
   return Json.mkObj [("m", Json.mkObj [("one", toJson (J.hex one)), ("sch", Json.arr sch.toArray)]), ("tags", Json.arr tags)]
 
 def main : IO Unit := Drv.run handle
